@@ -85,8 +85,13 @@ static inline void vn_read_arr(const char *name, void *p, size_t esz, size_t cnt
 #define VIN_ARR__(T, name, N, u) struct vinarr_##u { T a[N]; }; struct vinarr_##u nondet_##u(void); \
                           struct vinarr_##u vin_##name = nondet_##u(); T *name = vin_##name.a
 #define VASSUME(c)        __CPROVER_assume(c)
+#ifdef VHARNESS   /* group without DFCC: the same predicates, assumed / asserted by the entry itself */
+#define VPRE(c)           __CPROVER_assume(c)
+#define VPOST(c)          __CPROVER_assert(c, "postcondition " #c)
+#else
 #define VPRE(c)           do { } while (0)      /* pre is assumed by the enforced contract */
 #define VPOST(c)          do { } while (0)      /* post is asserted by the enforced contract */
+#endif
 /* vacuity canary: must be reported FAILED on every run (reachability of the end
  * of the entry under the contract's preconditions). */
 #define VGHOST(var, expr)  do { } while (0)
